@@ -27,7 +27,7 @@ ASSUMPTIONS = ['adjacency: add / remove one record for MST, AIM, Adaptive Grid a
                'configurations in which the mechanism raises before producing output are counted and not charged']
 PLAN = {
     'quick': dict(cases=48, budget_s=100, case_timeout=900, min_cases=16),
-    'thorough': dict(cases=1200, budget_s=3000, case_timeout=1800, min_cases=250),
+    'thorough': dict(cases=600, budget_s=1200, case_timeout=1800, min_cases=100),
 }
 
 
